@@ -549,3 +549,21 @@ Proof.
   destruct (D1 _ eq_refl) as [_ R]. specialize (R (r_init _ _ _)).
   split; [eapply tso_safe; [exact R | split; auto] | apply (tso_no_uaf _ _ _ R)].
 Qed.
+
+(* for examples: a schedule that runs yields a reachable state *)
+Lemma run_witness fenced NT K sch (P : st -> Prop) :
+  match run fenced NT K init sch with Some s => P s | None => False end ->
+  exists s, run fenced NT K init sch = Some s /\ reachable fenced NT K s /\ P s.
+Proof.
+  destruct (run fenced NT K init sch) as [s|] eqn:E; [|contradiction].
+  intros H. exists s. split; [reflexivity|]. split; [|exact H].
+  eapply run_reachable; [constructor|exact E].
+Qed.
+
+Lemma erun_sc_init fenced NT K sch :
+  option_map erase (erun fenced NT K init sch) = sc_run NT K (erase init) sch /\
+  (forall s', erun fenced NT K init sch = Some s' -> drained s' /\ reachable fenced NT K s').
+Proof.
+  destruct (erun_sc fenced NT K sch init init_drained) as [E D].
+  split; [exact E|]. intros s' H. destruct (D s' H) as [D1 R]. split; [exact D1|]. apply R. constructor.
+Qed.
